@@ -29,9 +29,60 @@ def oracle(c, v):
     return oracles.c12_oracle(c["schema"], c["config"], v.document, v._errors)
 
 
+def extra(ctx, res):
+    """directed family: rules sets given by registry NAME (validator-bound or module-level): the schema path of every error --
+    REQUIRED_FIELD of a missing field included -- must lead THROUGH the registry to the constraint the error carries"""
+    import copy
+    import random
+    import cerberus
+    import common
+    import refs
+    from gen import Gen
+    rng = random.Random(ctx["seed"] + 1212)
+    g = Gen(ctx["seed"] + 12, nested_bias=True)
+    n = 2500 if ctx["tier"] == "thorough" else 200 * ctx.get("scale", 1)
+    for i in range(n):
+        schema = g.schema()
+        # make sure some referenced rules sets spell out `required`
+        for f, rs in schema.items():
+            if isinstance(rs, dict) and rng.random() < 0.5:
+                rs['required'] = rng.choice([True, True, False])
+        pos = refs.referenceable(schema)
+        if not pos:
+            continue
+        s2, rdefs, sdefs = refs.substitute(schema, rng.sample(pos, rng.randrange(1, min(4, len(pos)) + 1)))
+        rr, sr = refs.make_registries(rdefs, sdefs)
+        doc = g.doc_for(schema, p_present=0.5)
+        cfg = g.config()
+        try:
+            v = cerberus.Validator(copy.deepcopy(s2), rules_set_registry=rr, schema_registry=sr, **copy.deepcopy(cfg))
+            v.validate(copy.deepcopy(doc), normalize=False)
+        except Exception:
+            continue
+        res["cases"] += 1
+        if v._errors:
+            res["nontrivial"] += 1
+        d = oracles.c12_oracle(s2, dict(cfg, rules_set_registry_obj=rr, schema_registry_obj=sr), v.document, v._errors)
+        if not d:
+            # a missing field whose (resolved) rules spell out `required: True` is reported under (field, 'required')
+            for e in v._errors:
+                if e.code == 0x02 and len(e.document_path) == 1:
+                    rs = s2.get(e.document_path[0])
+                    rs = rr.get(rs) if isinstance(rs, str) else rs
+                    spelled = isinstance(rs, dict) and 'required' in rs
+                    if spelled != (not isinstance(e.schema_path, str)):
+                        d = "required-field error for %r: schema_path %r although the field's rules %s `required`" % (
+                            e.document_path[0], e.schema_path, "spell out" if spelled else "do not spell out")
+                        break
+        if d:
+            res["violations"].append({"signature": "locate-by-reference:" + d.split(" ")[0][:24], "what": "(rules sets given by name) " + d,
+                                      "replay": {"schema": common.jval(s2), "rules_set_registry": common.jval(rdefs), "schema_registry": common.jval(sdefs),
+                                                 "config": common.jval(cfg), "document": common.jval(doc), "update": False}})
+
+
 def run(ctx):
     return _vfamily.run_family(ctx, oracle, lambda d: "locate:" + d.split(" ")[0][:24], model_compare,
-                               nontrivial=lambda c, v: bool(v._errors),
+                               nontrivial=lambda c, v: bool(v._errors), extra=extra,
                                rule="every validation-phase error of generated cases (all nesting kinds and combinations): document_path must lead to "
                                     "error.value in the processed document (parent container for required), code/rule from one definition, schema_path "
                                     "must resolve through the schema (conventions of DESIGN section 6 C12) to error.constraint, children exactly on group errors; "
